@@ -15,10 +15,11 @@ from .frame import FrameMixin
 from .gather import GatherMixin
 from .windows import WindowMixin
 from .select import SelectMixin
+from .flow import FlowMixin
 from .stmts import NORMAL, RETURN, RAISE
 
 
-class Engine(FrameMixin, GlueMixin, WindowMixin, SelectMixin, GatherMixin, LazyMixin, NpMixin, Exec):
+class Engine(FrameMixin, GlueMixin, FlowMixin, WindowMixin, SelectMixin, GatherMixin, LazyMixin, NpMixin, Exec):
     pass
 
 
@@ -47,6 +48,10 @@ def verify_contract(db, cc, target=None, prefix=None, engine_cls=Engine, fixed=N
             ex.inputs.append((p, ("const",), fixed[p]))
             continue
         st.vars[p] = fresh_of_type(st, p, ty, ex.inputs)
+        if fixed and p == "self":
+            for k_, val_ in fixed.items():
+                if k_.startswith("self."):   # attr_cases(<attr>=[...]): a finite case split on an attribute of self
+                    st.vars[p].attrs[k_[5:]] = val_
     # defaults are not applied: every parameter is symbolic
     if cc.assigns is not None:
         for nm in cc.assigns:
